@@ -1204,7 +1204,7 @@ Fixpoint has_key_kind (f : Z -> bool) (v : pval) : bool :=
   end.
 
 (* the repair state of the tree this branch is aligned with *)
-Definition cur_fixes : fixes := head_fixes.
+Definition cur_fixes : fixes := all_fixes.
 
 Definition cres_matches (o : cop) (r : cres) (err ex : Z) (res : list Z) : option bool :=      (* Some coded_ex *)
   match r with
